@@ -50,7 +50,7 @@ theorem python_types_roundtrip :
     whatever index a header-side table entry carries, the looked-up AST is what the model parser
     returns on the string stored next to it. -/
 theorem header_lookup_is_parse (i : Nat) (t : CType) (h : lookup IntrospectHeaders.typeTable i = some t) :
-    ∃ s : String, IntrospectHeaders.typeTable[i]? = some (s, t) ∧ parseType s.toList = some t := by
+    ∃ s : Str, IntrospectHeaders.typeTable[i]? = some (s, t) ∧ parseType s = some t := by
   unfold lookup at h
   cases hi : IntrospectHeaders.typeTable[i]? with
   | none => simp [hi] at h
